@@ -149,8 +149,14 @@ impl<T: FileReader> RVParser<T> {
                 }
                 Err(x) => match x {
                     LexError::Expected(ex, got) => {
+                        // If the offending token is the newline itself, the line is
+                        // already over: skipping to the next newline would drop the
+                        // following line.
+                        let line_is_over = *got == TokenType::Newline;
                         parse_errors.push(ParseError::Expected(ex, got));
-                        self.recover_from_parse_error();
+                        if !line_is_over {
+                            self.recover_from_parse_error();
+                        }
                     }
                     LexError::IsNewline(_) => {}
                     LexError::UnexpectedToken(got) => {
